@@ -122,9 +122,13 @@ func randomOne(id int, seed int64, deadline time.Duration, attempt int) randomRe
 				ok = false
 				failsLeft--
 			}
-			f.answerNSLocked(ok)
+			if ok {
+				f.answerNSLocked(true)
+			} else {
+				f.answerNSKindLocked(false, failureKinds[rng.Intn(len(failureKinds))])
+			}
 		case "fail":
-			f.failStreamLocked()
+			f.failStreamKindLocked(failureKinds[rng.Intn(len(failureKinds))])
 			failsLeft--
 		case "silent":
 			f.silentLocked()
